@@ -31,7 +31,8 @@ META = {
                   'class:double-compromise': 500, 'class:undo-not-compromised': 500, 'class:remove-with-many-reached': 100,
                   'class:remove-with-zero-reached': 50, 'attach-compared': 80, 'class:attach-overlapping-entry-points': 50,
                   'class:attach-unknown-step': 20, 'class:compromise-before-add': 100, 'exhaustive-histories': 10000,
-                  'attach-variant:second-graph': 15, 'attach-variant:copy': 15},
+                  'attach-variant:second-graph': 15, 'attach-variant:copy': 15, 'attach-variant:entry-node-removed': 15,
+                  'class:add_attacker-entry-points-only': 50, 'class:add_attacker-all-defaults': 50},
         'thorough': {'steps-checked': 5000000, 'op:remove_attacker': 100000, 'attach-compared': 20000, 'exhaustive-histories': 400000},
     },
 }
@@ -102,9 +103,21 @@ def run_history(desc_n, n_att, history, res, count=True):
                 if added[i]:
                     continue
                 ids = [nodes[j % desc_n].id for j in op[2] if any(nodes[j % desc_n] is x for x in g.nodes)]
-                g.add_attacker(atts[i], reached_attack_steps=ids)
+                before_r = [id(n) for n in atts[i].reached_attack_steps]
+                if not ids and len(op) > 3 and op[3]:
+                    eids = [nodes[j % desc_n].id for j in op[3] if any(nodes[j % desc_n] is x for x in g.nodes)]
+                    g.add_attacker(atts[i], entry_points=eids)        # reached steps left to the default
+                    cnt('class:add_attacker-entry-points-only')
+                elif not ids:
+                    g.add_attacker(atts[i])                            # all defaults
+                    cnt('class:add_attacker-all-defaults')
+                else:
+                    g.add_attacker(atts[i], reached_attack_steps=ids)
                 added[i] = True
                 cnt('op:add_attacker')
+                if not ids and [id(n) for n in atts[i].reached_attack_steps] != before_r:
+                    return ('compromise:add_attacker-without-reached-steps-compromises',
+                            '%s: an attacker added without reached steps now has reached %s' % (where, [n.full_name for n in atts[i].reached_attack_steps]))
                 for j in ids:
                     n = g.get_node_by_id(j)
                     if not any(x is atts[i] for x in n.compromised_by):
@@ -166,6 +179,15 @@ def _check_attach(case, res, count=True):
             other, g = g, _copy.deepcopy(g)           # attach on the copy, the original must stay untouched
     except TooExpensive:
         return None
+    removed_names = set()
+    if variant == 'entry-node-removed':
+        names0 = {a['id']: a['name'] for a in am.assets}
+        for t in am.attackers:
+            for aid, steps in t['entry_points'][:1]:
+                n0 = g.get_node_by_full_name(names0[aid] + ':' + steps[0])
+                if n0 is not None:
+                    g.remove_node(n0)
+                    removed_names.add(n0.name if False else names0[aid] + ':' + steps[0])
     other_before = agraph.snapshot(other) if other is not None else None
     try:
         g.attach_attackers()
@@ -189,7 +211,7 @@ def _check_attach(case, res, count=True):
         for aid, steps in t['entry_points']:
             typ = am.asset(aid)['type']
             for s in steps:
-                if s in lang.steps(typ):
+                if s in lang.steps(typ) and (names[aid] + ':' + s) not in removed_names:
                     want.add(names[aid] + ':' + s)
                 elif count:
                     res.count('class:attach-unknown-step')
@@ -252,7 +274,8 @@ def gen_history(rng, n, n_att):
         elif r < 0.7:
             ops.append([rng.choice(['u', 'nu']), rng.randrange(n_att), rng.randrange(1000)])
         elif r < 0.85:
-            ops.append(['add', rng.randrange(n_att), [rng.randrange(1000) for _ in range(rng.choice([0, 1, 3, 8]))]])
+            ops.append(['add', rng.randrange(n_att), [rng.randrange(1000) for _ in range(rng.choice([0, 0, 1, 3, 8]))],
+                        [rng.randrange(1000) for _ in range(rng.choice([0, 1, 2]))]])
         elif r < 0.97:
             ops.append(['rm', rng.randrange(n_att)])
         else:
@@ -310,7 +333,7 @@ def run(rng, res, tier, shard, nshards):
         if not budget.more() and tier == 'quick' and res.counters.get('attach-compared', 0) > 40:
             break
         case = hostile_attackers(rng, gen_case(rng, Cfg(max_depth=2, max_assets=5), MCfg(max_assets=6, attackers=0.0, hostile_names=0.2), corelang_share=0.06))
-        case['attach_variant'] = rng.choice(['plain', 'second-graph', 'copy'])
+        case['attach_variant'] = rng.choice(['plain', 'second-graph', 'copy', 'entry-node-removed'])
         f = check_attach(case, res)
         res.case(digest([case['spec'], case['amodel']]))
         if f:
